@@ -355,4 +355,55 @@ theorem validate_eq_spec_frag (O : Oracles) (root : Root) (s : SSchema) (v : GoV
     validate O root s v = (specValid O s v, false) :=
   validate_eq_spec O root s v (frag_leafAgree O _ (by rw [hroot]; exact h0) h0 _ s v hF)
 
+
+/-! ### the chain never panics (code as it is: a nil element is skipped) -/
+
+theorem itemsFold_np (f : GoVal → Bool × Bool) (h : ∀ x, (f x).2 = false) (xs : List GoVal) : (itemsFold f false xs).2 = false := by
+  unfold itemsFold
+  suffices H : ∀ (acc : Bool × Bool), acc.2 = false → (xs.foldl (itemsStep f false) acc).2 = false from H (false, false) rfl
+  induction xs with
+  | nil => intro acc ha; exact ha
+  | cons x xs ih =>
+    intro acc ha
+    simp only [List.foldl_cons]
+    apply ih
+    unfold itemsStep
+    split
+    · exact ha
+    · cases x <;> simp [ha, h]
+
+theorem validateAux_np (O : Oracles) : ∀ (fuel : Nat) (root : Root) (rootFmt : String) (s : SSchema) (v : GoVal),
+    (validateAux O false fuel root rootFmt s v).2 = false := by
+  intro fuel
+  induction fuel with
+  | zero => intro root rootFmt s v; rfl
+  | succ fuel ih =>
+    intro root rootFmt s v
+    obtain ⟨b, req, ae, items⟩ := s
+    have hitems : (itemsRes (validateAux O false fuel .items rootFmt) false items v).2 = false := by
+      unfold itemsRes
+      cases v with
+      | slice e n xs =>
+        cases items with
+        | none => rfl
+        | some it => exact itemsFold_np _ (fun x => ih .items rootFmt it x) xs
+      | _ => rfl
+    simp only [validateAux]
+    split
+    · rfl
+    · split
+      · rfl
+      · split
+        · rfl
+        · split
+          · rfl
+          · split
+            · rfl
+            · simp only [hitems, Bool.false_eq_true, ↓reduceIte]
+              split <;> rfl
+
+theorem validate_np (O : Oracles) (root : Root) (s : SSchema) (v : GoVal) : (validate O root s v).2 = false := by
+  unfold validate
+  cases v <;> first | rfl | exact validateAux_np O _ _ _ _ _
+
 end VM.Simple
